@@ -249,7 +249,13 @@ struct RegpHarness : Harness {
         if (f.payload.size() > 70000) f.payload.resize(70000);
         return f;
     }
-    static Bytes gen_payload(Rng &r, size_t n) { Bytes b(n); for (auto &x : b) { switch (r.below(6)) { case 0: x = 0xc0; break; case 1: x = 0xdb; break; case 2: x = 0xdc; break; case 3: x = 0xdd; break; default: x = (uint8_t)r.below(256); } } return b; }
+    static Bytes gen_payload(Rng &r, size_t n) {
+        // special payloads whose CRC-16/ARC is 0x0000: all zero, or ending in their own checksum (low octet first)
+        if (n >= 1 && r.chance(1, 8)) return Bytes(n, 0);
+        if (n >= 3 && r.chance(1, 10)) { Bytes b = gen_payload_plain(r, n - 2); uint16_t c = crc16arc(b.data(), b.size()); b.push_back((uint8_t)c); b.push_back((uint8_t)(c >> 8)); return b; }
+        return gen_payload_plain(r, n);
+    }
+    static Bytes gen_payload_plain(Rng &r, size_t n) { Bytes b(n); for (auto &x : b) { switch (r.below(6)) { case 0: x = 0xc0; break; case 1: x = 0xdb; break; case 2: x = 0xdc; break; case 3: x = 0xdd; break; default: x = (uint8_t)r.below(256); } } return b; }
     // a conformant frame for the transport
     static Frame gen_valid(Rng &r, bool serial, int type, bool ws16, size_t maxwords) {
         Frame f; f.type = type; f.seq = (uint16_t)(r.chance(1, 4) ? 0xfffe + r.below(2) : r.below(65536)); f.addr = (uint32_t)(r.chance(1, 4) ? 0xffffff00u + r.below(256) : r.below(0x10000));
@@ -313,7 +319,14 @@ struct RegpHarness : Harness {
                 else {
                     o["k"] = "raw";
                     Bytes b;
-                    switch (r.below(5)) {
+                    switch (r.below(6)) {
+                    case 5: {  // payload damaged, payload-checksum word forced to a special value, header checksum consistent: only the payload check stands in the way
+                        f = gen_valid(r, serial, r.chance(1, 2) ? T_WREQ : T_RRESP, ws16, 8); f.meta = 0; if (f.payload.empty()) { f.payload = gen_payload_plain(r, ws16 ? 2 : 1); f.bsize = 1; }
+                        f.options |= OPT_PLCRC | (r.chance(3, 4) ? OPT_HDCRC : 0);
+                        uint16_t good = crc16arc(f.payload.data(), f.payload.size());
+                        if (r.chance(2, 3)) f.payload[r.below(f.payload.size())] ^= (uint8_t)(1u << r.below(8));
+                        static const uint16_t SP[] = {0x0000, 0xffff, 0x0001, 0x8000};
+                        b = encode_forged_plcrc(f, r.chance(1, 4) ? good : SP[r.below(4)]); break; }
                     case 0: b = gen_payload(r, (size_t)r.range(0, 40)); break;                            // arbitrary octets
                     case 1: { f.options = (int)r.below(8) | (r.chance(1, 8) ? 8 : 0); b = encode(f, true); break; }   // every option-bit combination, checksums consistent with the bits
                     case 2: { b = encode(f, true); size_t k = (size_t)r.range(1, 3); for (size_t q = 0; q < k && !b.empty(); ++q) b[r.below(b.size())] ^= (uint8_t)(1u << r.below(8)); break; }  // mutated valid
